@@ -1,0 +1,10 @@
+//go:build verif
+
+package fragment
+
+// Contracts for /verif (gvc). Comment-only file.
+
+//@ prop C20
+//@ func NewFragmentRange
+//@   ensures result != nil && fresh(result) && result.Start == start && result.End == end
+//@   assigns nothing
